@@ -64,8 +64,9 @@ def o1(prog, rep):
         return
     c = ge[0]
     thr = c.b
-    norm = thr.replace("<Continue>.0", "")
-    want = "checked_add(checked_div(checked_mul(total_voting_power,const(2)),const(3)),const(1))"
+    import formula
+    norm = formula.canon(thr.replace("<Continue>.0", ""))
+    want = "(((2 * total_voting_power) / 3) + 1)"
     rep.check(norm == want, "O1", "threshold=total*2/3+1",
               f"threshold is `{norm[:120]}`, expected {want}", f"{body.file}:{c.line}", detail=norm)
     rep.check(on_all_success_paths(body, via_edges=c.true_edges), "O1",
